@@ -13,7 +13,7 @@
 //   op 5 : (5 ndim nvar db1 db2|() model ivar0 jvar0)          -> (index1 index2 M Msym Moptim Msymoptim active1)
 //   op 6 : (6 ndim nvar db model ivar0 member)                 -> (M)
 //   op 7 : (7 ndim nvar dbin dbout model neigh nbsimu seed nbtuba) -> (err dbout-dump)
-//   op 8 : (8 db (ivar..) (nbgh..) useSel useVerr)             -> (index active nactive)
+//   op 8 : (8 db (ivar..) (nbgh..) useSel useVerr useCoord)    -> (index active nactive)
 #include "sx.hpp"
 #include <sstream>
 #include "Db/Db.hpp"
@@ -119,7 +119,7 @@ static std::string vviStr(const VectorVectorInt& v) {
 }
 static ECalcVario calcOf(long long k) {
   switch (k) {
-    case 0: return ECalcVario::VARIOGRAM; case 1: return ECalcVario::COVARIANCE; case 3: return ECalcVario::MADOGRAM;
+    case 0: return ECalcVario::VARIOGRAM; case 1: return ECalcVario::COVARIANCE; case 3: return ECalcVario::MADOGRAM; case 5: return ECalcVario::POISSON;
     case 9: return ECalcVario::COVARIANCE_NC; case 10: return ECalcVario::ORDER4;
     default: throw std::runtime_error("calc code");
   }
@@ -224,7 +224,7 @@ static std::string run(const Sx& c) {
   if (op == 8) {
     Db* db = makeDb(c[1]);
     VectorInt act; for (int i = 0; i < db->getSampleNumber(); i++) act.push_back(db->isActive(i) ? 1 : 0);
-    o << "(" << vviStr(db->getMultipleRanksActive(c[2].vi(), c[3].vi(), c[4].b(), c[5].b())) << " " << sx_vi(act) << " "
+    o << "(" << vviStr(db->getMultipleRanksActive(c[2].vi(), c[3].vi(), c[4].b(), c[5].b(), c[6].b())) << " " << sx_vi(act) << " "
       << db->getSampleNumber(true) << ")";
     delete db;
     return o.str();
